@@ -71,7 +71,7 @@ Qed.
 Definition shut_conn (x : conn) (cz : cause) : conn :=
   {| c_key := c_key x; c_subs := []; c_closed := true;
      c_dead := match c_dead x with None => Some cz | d => d end;
-     c_timers := c_timers x; c_tclose := c_tclose x; c_rl := c_rl x; c_rm := true |}.
+     c_timers := c_timers x; c_rl := c_rl x; c_rm := true |}.
 
 Lemma shut_cases : forall s c cz s' evs, shut s c cz = (s', evs) ->
   (s' = s /\ evs = [] /\ (cns s c = None \/ exists x, cns s c = Some x /\ c_closed x = true))
@@ -88,7 +88,7 @@ Qed.
 Definition removed_conn (s : st) (x : conn) (w : nat) : conn :=
   let l := remove_w w (c_subs x) in
   let x1 := c_set_subs x l in
-  if is_nil l then if idle s then c_set_timers x1 (S (c_timers x1)) (c_tclose x1) else x1 else x1.
+  if is_nil l then if idle s then c_set_timers x1 (S (c_timers x1)) else x1 else x1.
 
 Arguments removed_conn : simpl never.
 
@@ -135,8 +135,25 @@ Proof.
   intros. apply (G tr s0 [] s log H0 H).
 Qed.
 
+(* closeIfEmpty: nothing happens (no such connection, table not empty, already closed), or the
+   connection is shut with an EMPTY table *)
+Lemma close_if_empty_cases : forall s c s' evs, close_if_empty s c = (s', evs) ->
+  (s' = s /\ evs = [] /\ (cns s c = None \/ exists x, cns s c = Some x /\ (c_subs x <> [] \/ c_closed x = true)))
+  \/ (exists x, cns s c = Some x /\ c_closed x = false /\ c_subs x = [] /\ s' = set_cn s c (shut_conn x CIdle)
+        /\ evs = kill_evs c x /\ shut s c CIdle = (s', evs)).
+Proof.
+  unfold close_if_empty; intros. destruct (cns s c) as [x|] eqn:E; [|inversion H; subst; auto].
+  destruct (is_nil (c_subs x)) eqn:En.
+  - apply is_nil_true in En. destruct (shut_cases _ _ _ _ _ H) as [(-> & -> & [E1|(y & E1 & E2)])|(y & E1 & E2 & -> & ->)].
+    + congruence.
+    + left. split; auto. split; auto. right. exists y. rewrite E in E1; inversion E1; subst. auto.
+    + rewrite E in E1; inversion E1; subst y. right. exists x. rewrite En in *. simpl in *.
+      repeat split; auto.
+  - apply is_nil_false in En. inversion H; subst. left. split; auto. split; auto. right. exists x. auto.
+Qed.
+
 Ltac inv_step H :=
-  unfold step in H;
+  unfold step, get_or_dial, set_okey in H;
   repeat match type of H with
          | context [match ?x with _ => _ end] => destruct x eqn:?; try discriminate
          | context [if ?x then _ else _] => destruct x eqn:?; try discriminate
